@@ -13,17 +13,46 @@ import (
 )
 
 type solverSpec struct {
-	name    string
-	dialect string
-	args    func(file string, timeoutMs int) []string
+	name      string
+	dialect   string
+	args      func(file string, timeoutMs int) []string
+	unsatOnly bool // the query is a weakening (assumptions dropped): only "unsat" means anything
 }
 
 var solvers = []solverSpec{
-	{"z3-new", "z3", func(file string, t int) []string { return []string{"z3-new", fmt.Sprintf("-t:%d", t), file} }},
+	{"z3-new", "z3", func(file string, t int) []string { return []string{"z3-new", fmt.Sprintf("-t:%d", t), file} }, false},
 	{"cvc5", "cvc5", func(file string, t int) []string {
 		return []string{"cvc5", fmt.Sprintf("--tlimit=%d", t), "--produce-models", file}
-	}},
-	{"z3", "z3", func(file string, t int) []string { return []string{"z3", fmt.Sprintf("-t:%d", t), file} }},
+	}, false},
+	{"z3", "z3", func(file string, t int) []string { return []string{"z3", fmt.Sprintf("-t:%d", t), file} }, false},
+	// the same query without its quantified assumptions (callee postconditions with forall are irrelevant to most
+	// goals but send MBQI into a loop): fewer assumptions, so "unsat" is still a proof
+	{"z3-new-qf", "z3qf", func(file string, t int) []string { return []string{"z3-new", "smt.bv.solver=2", fmt.Sprintf("-t:%d", t), file} }, true},
+}
+
+// stripQuantifiedAssumptions removes the (assert ...) lines that contain a quantifier, except the last assert
+// (the negated goal).
+func stripQuantifiedAssumptions(q string) string {
+	lines := strings.Split(q, "\n")
+	last := -1
+	for i, l := range lines {
+		if strings.HasPrefix(l, "(assert ") {
+			last = i
+		}
+	}
+	dropped := false
+	var out []string
+	for i, l := range lines {
+		if i != last && strings.HasPrefix(l, "(assert ") && (strings.Contains(l, "(forall ") || strings.Contains(l, "(exists ")) {
+			dropped = true
+			continue
+		}
+		out = append(out, l)
+	}
+	if !dropped {
+		return ""
+	}
+	return strings.Join(out, "\n")
 }
 
 type solveResult struct {
@@ -69,6 +98,12 @@ func raceSolve(queries map[string]string, name string, timeoutMs int, wantModel 
 			continue
 		}
 		q := queries[sp.dialect]
+		if sp.dialect == "z3qf" {
+			q = stripQuantifiedAssumptions(queries["z3"])
+		}
+		if q == "" {
+			continue
+		}
 		if wantModel {
 			q += "(get-model)\n"
 		}
@@ -92,6 +127,9 @@ func raceSolve(queries map[string]string, name string, timeoutMs int, wantModel 
 				st = "unsat"
 			case "sat":
 				st = "sat"
+				if sp.unsatOnly {
+					st = "unknown"
+				}
 			default:
 				if strings.HasPrefix(first, "(error") && !strings.Contains(first, "timeout") && !strings.Contains(first, "interrupted") {
 					st = "error"
